@@ -193,6 +193,17 @@ def run(ctx):
                         ctx.ok("R5", f"{f.qualname}: permutation indexes ({puse}x), signs multiply ({suse}x)", f"{f.module.relpath}:{cs.node.lineno}")
                     else:
                         ctx.violate("R5", f"a result of convert_conventions is never applied (permutation uses {puse}, sign uses {suse})", f, cs.node)
+    # the permutation gathers (x[permutation]); used as a store index it scatters, i.e. applies the inverse permutation
+    for f in prog.package_funcs():
+        pnames = set()
+        for n in f.own_nodes():
+            if isinstance(n, ast.Assign) and isinstance(n.value, ast.Call) and len(n.targets) == 1 and isinstance(n.targets[0], ast.Tuple) and len(n.targets[0].elts) == 2:
+                cs_ = next((c for c in f.calls if c.node is n.value), None)
+                if cs_ is not None and cc in cs_.callees and isinstance(n.targets[0].elts[0], ast.Name):
+                    pnames.add(n.targets[0].elts[0].id)
+        for n in f.own_nodes():
+            if isinstance(n, ast.Subscript) and isinstance(n.ctx, ast.Store) and any(isinstance(x, ast.Name) and x.id in pnames for x in ast.walk(n.slice)):
+                ctx.violate("R5", f"the permutation `{src_of(n.slice)}` is used as a *store* index (`{src_of(n)} = ...`): that scatters instead of gathers, i.e. applies the inverse permutation", f, n)
     ctx.floor("R5", nsites, 6, "convert_conventions call sites")
 
     # ------------------------------------------------------------------ R7
